@@ -10,6 +10,7 @@ package main
 // and tolerance values of their cmd/arc/main.go construction sites.
 
 import (
+	"bufio"
 	"bytes"
 	"context"
 	"crypto/sha256"
@@ -133,6 +134,7 @@ type world struct {
 	db      *sql.DB
 	dir     string
 	hdr     map[string]string
+	conns   []*httpConn // simulated HTTP server connections (one fasthttp.RequestCtx each)
 
 	invalidations int64
 	tolSeen       map[string]time.Duration // nonce -> tolerance the handler passed to its validator
@@ -368,19 +370,126 @@ func (w *world) send(rq *request) response {
 		}
 		harnessFail("%s: unexpected ack type %v", rq.typ, m.Type)
 	default:
-		var ctx fasthttp.RequestCtx
-		ctx.Init(&fasthttp.Request{}, nil, nil)
-		ctx.Request.Header.SetMethod("POST")
-		ctx.Request.SetRequestURI(rq.path)
-		for _, k := range sortedKeys(rq.hdr) {
-			ctx.Request.Header.Set(k, rq.hdr[k])
-		}
-		own := append([]byte(nil), rq.body...)
-		ctx.Request.SetBodyRaw(own)
-		w.handler(&ctx)
-		return response{status: ctx.Response.StatusCode()}
+		// old-style plans / calibration: connection 0, canonical header order
+		hc := w.acquireConn(0)
+		defer w.releaseConn(hc)
+		return w.sendHTTP(rq, hc, 0)
 	}
 	return response{}
+}
+
+// ---------------------------------------------------------------------------
+// HTTP connections
+//
+// fasthttp serves every request of a keep-alive connection with ONE
+// RequestCtx (and hands that RequestCtx to a later connection through its
+// pool once the connection is closed): the next request is parsed into the
+// same header slots, body buffer and read buffer, overwriting the bytes of
+// the previous one. arc runs Fiber with Immutable=false, so everything a
+// handler obtains from c.Get/c.Body/... points into those buffers and is
+// valid only until the handler returns. An httpConn is that unit of buffer
+// reuse: one RequestCtx + one read buffer; requests reach it as wire bytes
+// and are parsed by fasthttp's own request parser, and between two requests
+// exactly what fasthttp's serveConn does is done (reset user values, request,
+// response). A "connection index" of a plan therefore stands for a keep-alive
+// connection or, equally, for a sequence of connections that received the
+// same pooled RequestCtx one after the other.
+
+type httpConn struct {
+	idx    int
+	ctx    fasthttp.RequestCtx
+	src    bytes.Reader
+	br     *bufio.Reader
+	busy   bool
+	served int // requests parsed on this connection so far
+}
+
+type nopLogger struct{}
+
+func (nopLogger) Printf(string, ...interface{}) {}
+
+// acquireConn returns connection idx, or - when that one is in the middle of
+// a request (HTTP/1.1: one request at a time per connection) - the next idle
+// one. Called by the driver, never by concurrently running tasks.
+func (w *world) acquireConn(idx int) *httpConn {
+	if idx < 0 {
+		idx = 0
+	}
+	for ; ; idx++ {
+		for len(w.conns) <= idx {
+			hc := &httpConn{idx: len(w.conns)}
+			hc.ctx.Init2(&scriptConn{in: bytes.NewReader(nil)}, nopLogger{}, false)
+			hc.br = bufio.NewReaderSize(&hc.src, 8192)
+			w.conns = append(w.conns, hc)
+		}
+		if hc := w.conns[idx]; !hc.busy {
+			hc.busy = true
+			return hc
+		}
+	}
+}
+
+func (w *world) releaseConn(hc *httpConn) { hc.busy = false }
+
+// servedOn is the number of requests parsed so far on connection idx.
+func (w *world) servedOn(idx int) int {
+	if idx < 0 || idx >= len(w.conns) {
+		return 0
+	}
+	return w.conns[idx].served
+}
+
+// headerOrder returns the header names of rq in the order they go on the
+// wire: order 0 is the canonical (sorted) one, any other value selects a
+// fixed permutation. The order of header fields is not covered by any MAC.
+func headerOrder(hdr map[string]string, order int) []string {
+	ks := sortedKeys(hdr)
+	if order <= 0 {
+		return ks
+	}
+	x := uint32(order)*2654435761 + 12345
+	for i := len(ks) - 1; i > 0; i-- {
+		x = x*1664525 + 1013904223
+		j := int((x >> 8) % uint32(i+1))
+		ks[i], ks[j] = ks[j], ks[i]
+	}
+	return ks
+}
+
+// httpWire renders rq as the bytes a client puts on the connection.
+func httpWire(rq *request, order int) []byte {
+	var b bytes.Buffer
+	fmt.Fprintf(&b, "POST %s HTTP/1.1\r\nHost: %s:8000\r\n", rq.path, hubNodeID)
+	for _, k := range headerOrder(rq.hdr, order) {
+		fmt.Fprintf(&b, "%s: %s\r\n", k, rq.hdr[k])
+	}
+	fmt.Fprintf(&b, "Content-Length: %d\r\n\r\n", len(rq.body))
+	b.Write(rq.body)
+	return b.Bytes()
+}
+
+// sendHTTP delivers rq on connection hc (must run on a hub task; hc was
+// acquired by the driver).
+func (w *world) sendHTTP(rq *request, hc *httpConn, order int) response {
+	wire := httpWire(rq, order)
+	hc.src.Reset(wire)
+	hc.br.Reset(&hc.src)
+	if err := hc.ctx.Request.Read(hc.br); err != nil {
+		harnessFail("%s: fasthttp cannot parse the harness's request: %v", rq.typ, err)
+	}
+	hc.served++
+	w.handler(&hc.ctx)
+	r := response{status: hc.ctx.Response.StatusCode()}
+	// what fasthttp's serveConn does before it reads the connection's next request
+	hc.ctx.ResetUserValues()
+	hc.ctx.Request.Reset()
+	hc.ctx.Response.Reset()
+	// the socket bytes are gone as well: nothing may alias the request after
+	// the handler returned
+	for i := range wire {
+		wire[i] = 0xAA
+	}
+	return r
 }
 
 func sortedKeys(m map[string]string) []string {
